@@ -60,6 +60,8 @@ class KexDH:  # pragma: nocover
         self.__hostkey_n_len = 0  # Length of the host key modulus.
         self.__ca_key_type = ''  # Type of CA key ('ssh-rsa', etc).
         self.__ca_n_len = 0  # Length of the CA key modulus (if hostkey is a cert).
+        self.__hostkey_rsa_bits = 0  # Size, in bits, of the modulus of an RSA host key.
+        self.__ca_rsa_bits = 0  # Size, in bits, of the modulus of an RSA CA key (if hostkey is a cert).
 
     def set_params(self, g: int, p: int) -> None:
         self.__g = g
@@ -85,8 +87,10 @@ class KexDH:  # pragma: nocover
         self.__hostkey_e = 0  # pylint: disable=unused-private-member
         self.__hostkey_n = 0  # pylint: disable=unused-private-member
         self.__hostkey_n_len = 0
+        self.__hostkey_rsa_bits = 0
         self.__ca_key_type = ''
         self.__ca_n_len = 0
+        self.__ca_rsa_bits = 0
 
         try:
             packet_type, payload = s.read_packet(2)
@@ -151,6 +155,10 @@ class KexDH:  # pragma: nocover
             # Here is the modulus size & actual modulus of the host key public key.
             hostkey_n, self.__hostkey_n_len, ptr = KexDH.__get_bytes(hostkey, ptr)
             self.__hostkey_n = int(binascii.hexlify(hostkey_n), 16)  # pylint: disable=unused-private-member
+
+            # The size of an RSA key is the size of its modulus in bits; the length of the encoding only gives it to the nearest byte (a 2040-bit modulus takes as many bytes as a 2048-bit one).
+            if self.__hostkey_type.startswith('ssh-rsa') and self.__hostkey_n_len > 0:
+                self.__hostkey_rsa_bits = self.__hostkey_n.bit_length()
 
             # For ECDSA keys, the fields read above are the curve name and the public point.  An uncompressed point is 0x04 followed by the X and Y values; the key size is the size of one of them.
             if is_ecdsa and self.__hostkey_n_len > 0 and hostkey_n[0] == 4:
@@ -229,6 +237,9 @@ class KexDH:  # pragma: nocover
                 # CA's modulus.  Bingo.
                 ca_key_n, ca_key_n_len, ptr = KexDH.__get_bytes(ca_key, ptr)  # pylint: disable=unused-variable
 
+                if ca_key_type == 'ssh-rsa' and ca_key_n_len > 0:
+                    self.__ca_rsa_bits = int(binascii.hexlify(ca_key_n), 16).bit_length()
+
                 if ca_key_type.startswith("ecdsa-sha2-nistp") and ca_key_n_len > 0:
                     self.out.d("Found ecdsa-sha2-nistp* CA key type.")
 
@@ -278,6 +289,8 @@ class KexDH:  # pragma: nocover
 
     # Returns the size of the hostkey, in bits.
     def get_hostkey_size(self) -> int:
+        if self.__hostkey_rsa_bits > 0:
+            return self.__hostkey_rsa_bits
         return KexDH.__key_size(self.__hostkey_type, self.__hostkey_n_len)
 
     # Returns the CA type ('ssh-rsa', 'ssh-ed25519', etc).
@@ -286,6 +299,8 @@ class KexDH:  # pragma: nocover
 
     # Returns the size of the CA key, in bits.
     def get_ca_size(self) -> int:
+        if self.__ca_rsa_bits > 0:
+            return self.__ca_rsa_bits
         return KexDH.__key_size(self.__ca_key_type, self.__ca_n_len)
 
     # Returns the size of the DH modulus, in bits.
